@@ -266,3 +266,16 @@ def gil_hog(x=None, ready_file=None):
 
 def quick_ret(x=None, ready_file=None):
     return 5
+
+
+# ---- C18: context targets ---------------------------------------------------------------------------------------------------
+def ctx_a(x, tag='a0', exp=1):
+    return ['a', tag, x, exp]
+
+
+def ctx_b(x, tag='b0', exp=2):
+    return ['b', tag, x, exp]
+
+
+def square(x):
+    return x * x
